@@ -71,6 +71,11 @@ def monitor(x, spec: dict, dp: t.Dict[str, int]) -> t.List[tuple]:
             break
 
     for pos, e in enumerate(x.log):
+        if e[0] == 'event' and e[2] == 'node_start':
+            # with a (suspending) event manager registered, a node counts as started once its on_node_start hook is entered
+            nm = str(e[3]).split('__', 1)[-1]
+            started.add(nm)
+            start_pos.setdefault(nm, pos)
         if e[0] == 'start':
             started.add(e[2])
             start_pos.setdefault(e[2], pos)
@@ -120,12 +125,16 @@ def work(arg: tuple) -> dict:
     if fam != 'corpus':
         variants += [({n: 'async' for n in sp2['nodes']}, sp2) for sp2 in renamings(spec, tier)]
         variants += [({n: 'thread' for n in sp2['nodes']}, sp2) for sp2 in renamings(spec, tier)] if len(spec['nodes']) <= 4 else []
-    for assign, base in variants:
+    variants = [(a, b, {'events': False}) for a, b in variants]
+    # an event manager whose on_node_start hook suspends: a node held open in the hook must not delay its siblings
+    hook = {'mode': 'gated', 'gate_kinds': ['node_start']}
+    variants += [({n: m for n in spec['nodes']}, spec, hook) for m in ('async', 'thread')]
+    for assign, base, collab in variants:
         dp = depths(base)
         sp = json.loads(json.dumps(base))
         for n, m in assign.items():
             sp['nodes'][n]['mode'] = m
-        case = X.Case(sp, [{}], fam=fam, collab={'events': False})
+        case = X.Case(sp, [{}], fam=fam, collab=dict(collab))
         viols: t.Dict[str, list] = {}
         states: t.Set[int] = set()
 
